@@ -789,6 +789,36 @@ func c14Rack(p *load.Program, r *oblig.Report) {
 			skips = append(skips, p.Pos(mu.Pos())+": "+c)
 		}
 	})
+	// the zone pass takes units out of the global remainder only for a zone whose consumers all reached the target:
+	// leftovers handed out in a zone below its target are part of those members' base share, and charging them to
+	// the remainder leaves the final pass short (a partition then ends up with no owner)
+	okRem, remGuard := false, ""
+	for _, b := range an.Blocks(at) {
+		for _, ins := range b.Instrs {
+			bo, ok := ins.(*ssa.BinOp)
+			if !ok || bo.Op != token.SUB {
+				continue
+			}
+			inZone := false
+			for _, c := range guardCanon(bo) {
+				if strings.HasPrefix(strings.TrimPrefix(c, "¬"), "next(range(") {
+					inZone = true
+				}
+			}
+			if !inZone || !strings.Contains(clean(an.ShapeCanon(bo.X)), "(len(partitions) % len(members))") {
+				continue
+			}
+			sel := selConds(bo)
+			remGuard = strings.Join(sel, " ∧ ")
+			for _, c := range sel {
+				if strings.Contains(c, " == ") && strings.Contains(c, "(len(partitions) / len(members))") {
+					okRem = true
+				}
+			}
+		}
+	}
+	r.Check(okRem, rule, "RackAffinity.assignTopic charges in-zone leftovers to the remainder only when the zone reached the target", p.Pos(at.Pos()),
+		"if partsPerMember == targetPerMember { …; remainder -= leftover }", remGuard)
 	r.Check(nZone >= 2 && len(skips) == 0, rule, "RackAffinity.assignTopic runs both in-zone hand-outs for every zone that has consumers", p.Pos(at.Pos()),
 		"in the zone loop only `len(consumers) == 0` skips the assignments", fmt.Sprintf("%d in-zone assignments; also skipped when: %v", nZone, skips))
 }
